@@ -72,10 +72,15 @@ func strictKnown() bool { return os.Getenv("VERIF_STRICT_KNOWN") == "1" }
 // Watchdog: per-case wall clock and heap budget. A hit dumps all goroutine stacks and exits with code 3
 // (the driver then re-runs the journalled case alone before calling anything a violation).
 
+// The watchdog measures with the MONOTONIC clock (nanoseconds since processStart): in this sandbox the wall clock
+// jumped forward several times (VM snapshots), which made every running shard "exceed" its per-case budget at once.
 var (
-	caseStartNs atomic.Int64 // 0 = no case running
-	wdOnce      sync.Once
+	processStart = time.Now()
+	caseStartNs  atomic.Int64 // monotonic ns since processStart, +1; 0 = no case running
+	wdOnce       sync.Once
 )
+
+func monoNow() int64 { return int64(time.Since(processStart)) + 1 }
 
 func startWatchdog() {
 	wdOnce.Do(func() {
@@ -90,7 +95,7 @@ func startWatchdog() {
 				}
 				metrics.Read(sample)
 				heap := sample[0].Value.Uint64()
-				el := time.Duration(time.Now().UnixNano() - st)
+				el := time.Duration(monoNow() - st)
 				var why string
 				if heap > cfg.HeapMiB<<20 {
 					why = fmt.Sprintf("heap budget exceeded: %d MiB live > %d MiB", heap>>20, cfg.HeapMiB)
@@ -128,12 +133,20 @@ func beginCase(propID string, c any) {
 			_, _ = journalFile.WriteAt(buf, 0)
 		}
 	}
-	caseStartNs.Store(time.Now().UnixNano())
+	caseStartNs.Store(monoNow())
+	// driver self-test only: die like a watchdog hit, once per marker file (exercises the "death that does not reproduce" path)
+	if marker := os.Getenv("VERIF_TEST_DIE_ONCE"); marker != "" {
+		if _, err := os.Stat(marker + "." + strconv.Itoa(cfg.Shard)); err != nil && os.Getenv("VERIF_REPLAY") == "" {
+			_ = os.WriteFile(marker+"."+strconv.Itoa(cfg.Shard), []byte("x"), 0o644)
+			fmt.Fprintln(os.Stderr, "VERIF-WATCHDOG: simulated death (VERIF_TEST_DIE_ONCE)")
+			os.Exit(3)
+		}
+	}
 }
 
 func endCase() {
 	st := caseStartNs.Swap(0)
-	d := time.Duration(time.Now().UnixNano() - st)
+	d := time.Duration(monoNow() - st)
 	slowMu.Lock()
 	totalCase += d
 	slowMu.Unlock()
